@@ -5,7 +5,8 @@ rigidity m_l so stiff, intermediate and soft bodies are equally likely):
   R 1e5..1e8 m, rho 10^[2.7,4.3], l 2..10, m_l 10^[-2,3], arg(mu) in [0,1.5], integrator in
   {RK23,RK45,DOP853}, configuration in {static/compressible/Takeuchi, static/compressible/Kamata,
   dynamic/compressible/Takeuchi, dynamic/compressible/Kamata, dynamic/incompressible/Kamata}
-  (+ the three unimplemented combinations, which must raise NotImplementedError), nondimensionalize
+  (+ the three combinations documented as not implemented: generated too, discarded if rejected, judged like any other
+  case should they ever return a solution), nondimensionalize
   T/F, 20..200 slices, r0/R 10^[-2.5,-1] (Takeuchi: <= 0.03, see C04's known finding), rtol 10^[-9,-6] (RK23: 10^[-7,-4]),
   atol = 1e-4 rtol, K = 10^[6,9] * max(|mu|, rho g R), omega^2 R/g in 10^[-12,-7] (10^[-8,-5] for
   dynamic/incompressible Kamata); `solve_for` in {(tidal), (tidal, loading), (loading, tidal), (free, tidal, loading)} - the tidal
@@ -136,11 +137,8 @@ def evaluate(case):
         c = Collector(labels, nontrivial=False)
         try:
             sol, _ = rc.solve(spec)
-        except NotImplementedError:
-            return c.result()
-        except Exception as e:  # noqa
-            c.fail({'clause': 'unimplemented_combination', 'config': case['config'], 'raised': type(e).__name__}, repr(e))
-            return c.result()
+        except Exception:  # noqa: these combinations are documented as not implemented; how they are rejected is not C01's subject
+            return discard('combination_not_implemented', labels)
         # A combination that has since been implemented must then give the right answer; fall through.
         c.label('now_implemented')
     with repo_call('radial_solver'):
